@@ -188,6 +188,9 @@ var c02Snippets = []string{
 	"groups:\n- name: g\n  rules:\n  - record: a\n    expr: 'sum(foo)\n      by (job)'\n",
 	"",
 	"\n\n",
+	"a:\r\r\r\r\r  - b: [\n",
+	"groups:\r- name: g\r  rules:\r  - record: a\r    expr: up\r    bogus: 1\r",
+	"groups:\r\r\r\r- name: g\r  rules:\r  - record: a\r    expr: [\r",
 	"groups: []\n",
 	"groups:\n- name: g\n  rules: []\n",
 	"groups:\n- name: g\n  rules:\n  - alert: a\n    expr: up\n    annotations:\n      summary: \"{{ $labels.x }}\\n\\\n        more\"\n",
